@@ -41,6 +41,7 @@ type HistorySetup struct {
 	ParamsDesc    string    `json:"params"`
 	Funds         []FundRec `json:"funds"`
 	ModSvcPricing string    `json:"modsvc_pricing,omitempty"`
+	ModSvcQoS     uint64    `json:"modsvc_qos,omitempty"`
 	StateCbKill   bool      `json:"state_callback_kills,omitempty"`
 	StartHeight   int64     `json:"start_height,omitempty"`
 	ViaApp        bool      `json:"end_block_via_module_manager,omitempty"`
@@ -207,9 +208,12 @@ func (r *Run) TrackOnly(name string, addr sdk.AccAddress) {
 	r.hist.Setup.Funds = append(r.hist.Setup.Funds, FundRec{name, hexs(addr), "0"})
 }
 
-func (r *Run) InstallModuleService(pricing string) {
-	r.w.InstallModuleService(pricing)
+func (r *Run) InstallModuleService(pricing string) { r.InstallModuleServiceQoS(pricing, 1) }
+
+func (r *Run) InstallModuleServiceQoS(pricing string, qos uint64) {
+	r.w.InstallModuleServiceQoS(pricing, qos)
 	r.hist.Setup.ModSvcPricing = pricing
+	r.hist.Setup.ModSvcQoS = qos
 }
 
 func (r *Run) SetKillOthers(v bool) {
@@ -374,7 +378,11 @@ func Replay(a *App, h *History, mon *Mon) *Run {
 		r.hist.Setup.BigFunds = append(r.hist.Setup.BigFunds, f)
 	}
 	if h.Setup.ModSvcPricing != "" {
-		r.InstallModuleService(h.Setup.ModSvcPricing)
+		q := h.Setup.ModSvcQoS
+		if q == 0 {
+			q = 1
+		}
+		r.InstallModuleServiceQoS(h.Setup.ModSvcPricing, q)
 	}
 	r.SetStateCbKill(h.Setup.StateCbKill)
 	r.SetViaApp(h.Setup.ViaApp)
